@@ -111,10 +111,18 @@ func (w *webSocketClient) handleErr(err error) {
 	}
 }
 
+// closing reports whether Close has been called; isClosing is written by Close
+// under the mutex, so it must be read under it too.
+func (w *webSocketClient) closing() bool {
+	w.Lock()
+	defer w.Unlock()
+	return w.isClosing
+}
+
 func (w *webSocketClient) listenWebSocket() {
 	defer verifYield("listen.exit")
 	for {
-		if w.isClosing {
+		if w.closing() {
 			return
 		}
 		_, message, err := w.conn.ReadMessage()
